@@ -135,6 +135,32 @@ CHECKS = {
         technique="TLA+ spec: TLC enumerates file layouts, both implementations observed on real objects, TLC trace validation",
         design_ref="DESIGN.md section 5 C03",
     ),
+    "C06": dict(
+        level="model_checking",
+        text=("Cenc.tla generates the samples (every NAL size mix around the 16/96/112/128-byte thresholds and the 64 KiB clear-run "
+              "split; audio sizes); each is placed in 1-3-sample fragments with vendor/unknown boxes in moof and traf, encrypted by "
+              "InitProtect/EncryptFragment (cenc avc/hevc/audio, cbcs audio and corpus avc), encoded, decoded, decrypted by "
+              "DecryptInit/DecryptSegment, encoded and read back by the independent ISO reader; the recorded round-trip outcomes "
+              "(samples, sample entry restored, sinf gone, non-protection boxes kept byte-identically, offsets) are validated by "
+              "CencTrace.tla."),
+        note=("Trusted: TLC, Go driver, its walker/ISO reader. Keys are fixed; IVs from 7 classes incl. wrap. Third-party encrypted "
+              "corpus files (R5) are not yet exercised. cbcs video only on corpus content."),
+        technique="TLA+ spec: TLC enumerates sample layouts, replay through real encrypt/decrypt, TLC trace validation of outcomes",
+        design_ref="DESIGN.md section 5 C06/C07",
+    ),
+    "C07": dict(
+        level="model_checking",
+        text=("Cenc.tla states W1-W6 (sub-samples partition the sample; length fields, NAL headers and non-video units clear; video "
+              "units > 127 bytes protected to their end from <= 127 bytes in, in 16-byte blocks; audio whole; saiz/saio describe the "
+              "senc entries; IVs advance by the blocks used, 128-bit carry) and an Impl model of the library's Bento4-compatible rule; "
+              "TLC checks Impl => Prop for every NAL size mix and exports the samples; the real EncryptFragment output is parsed by the "
+              "harness's own walker and every observed sample/fragment is validated by CencTrace.tla; protected bytes are compared with "
+              "an independent CTR / CBC-pattern schedule built on the raw AES block function only, all other bytes with the clear input."),
+        note=("Trusted: TLC, Go driver/walker, crypto/aes block function. cbcs video: slice-header length from avc.ParseSliceHeader "
+              "(judged by C15), corpus content only."),
+        technique="TLA+ spec + TLC exhaustive enumeration, replay through real encryptor, TLC trace validation, independent cipher schedule",
+        design_ref="DESIGN.md section 5 C06/C07",
+    ),
 }
 
 PENDING_REASON = "check not built yet in this revision (planned in DESIGN.md section 5); not claimed until its machinery exists"
